@@ -929,6 +929,10 @@ public:
 			else {
 				long length = this->length() - this->unused();
 				content<T *> *next = content<T *>::create(length);
+				/* keep shared elements when no private buffer is available */
+				if (!next) {
+					return;
+				}
 				for (T **b = data->begin(), **e = data->end(); b < e; ++b) {
 					void *dest;
 					if (*b && (dest = next->insert(next->length()))) {
